@@ -654,6 +654,11 @@ bool TimeZoneInfo::Load(ZoneInfoSource* zip) {
   }
   if (hdr.typecnt == 0)
     return false;
+  if (hdr.typecnt > TZ_MAX_TYPES) {
+    // Transition types are referenced through a single byte, both in the
+    // data and in the indexes that we keep (see tzfile.h).
+    return false;
+  }
   if (hdr.leapcnt != 0) {
     // This code assumes 60-second minutes so we do not want
     // the leap-second encoded zoneinfo. We could reverse the
@@ -713,7 +718,7 @@ bool TimeZoneInfo::Load(ZoneInfoSource* zip) {
   // Determine the before-first-transition type.
   default_transition_type_ = 0;
   if (seen_type_0 && hdr.timecnt != 0) {
-    std::uint_fast8_t index = 0;
+    std::size_t index = 0;  // may reach hdr.typecnt, which can be 256
     if (transition_types_[0].is_dst) {
       index = transitions_[0].type_index;
       while (index != 0 && transition_types_[index].is_dst)
@@ -722,7 +727,7 @@ bool TimeZoneInfo::Load(ZoneInfoSource* zip) {
     while (index != hdr.typecnt && transition_types_[index].is_dst)
       ++index;
     if (index != hdr.typecnt)
-      default_transition_type_ = index;
+      default_transition_type_ = static_cast<std::uint_fast8_t>(index);
   }
 
   // Copy all the abbreviations.
